@@ -33,6 +33,8 @@ func main() {
 		os.Exit(cmdList(os.Args[2:]))
 	case "replay":
 		os.Exit(cmdReplay(os.Args[2:]))
+	case "dump":
+		os.Exit(cmdDump(os.Args[2:]))
 	case "counts":
 		os.Exit(cmdCounts(os.Args[2:]))
 	case "selftest":
@@ -434,6 +436,31 @@ func cmdCounts(args []string) int {
 					fl = saved(c, prop)
 				}
 				fmt.Printf("%-4s %-8s %-4s obligations=%3d floor=%3d\n", r.ID, c.Name, prop, len(obs), fl)
+			}
+		}
+	}
+	return 0
+}
+
+// cmdDump prints the SSA of the named zap functions (debugging aid).
+func cmdDump(args []string) int {
+	fs := flag.NewFlagSet("dump", flag.ExitOnError)
+	repo := fs.String("repo", "/repo", "repository root")
+	vec := fs.Bool("vectors", false, "vectors configuration")
+	fs.Parse(args)
+	cfg := cfgDefault
+	if *vec {
+		cfg = cfgVectors
+	}
+	p, err := loadProgram(*repo, cfg)
+	if err != nil {
+		fmt.Println(err)
+		return 1
+	}
+	for _, fn := range p.ZapFuncs {
+		for _, want := range fs.Args() {
+			if strings.Contains(funcShortName(fn), want) {
+				fn.WriteTo(os.Stdout)
 			}
 		}
 	}
